@@ -21,6 +21,19 @@ Supported subset
   returns the current state when the fuel runs out), calls of local closures (inlined),
   `return`; `assert` and `logging.*` are skipped (asserts are listed in the doc comment).
 
+* exceptions and calls (used by gen_liveindex.py): `raise` is translated into a *failure
+  condition* – the disjunction of the path conditions of all `raise` statements – and the
+  translated function returns `none` when it holds, `some <result>` otherwise (all translated
+  expressions are total and pure, so evaluating past a `raise` is harmless); statements that
+  precede a `raise` in the same block (logging, message formatting) are not translated;
+  `try: … except …: … raise` is translated as its body (every handler must re-raise);
+  method calls on known objects are inlined (`a, b, _ = self.m(x)` unpacks the returned tuple);
+  calls listed in `ext_calls` / `ext_funcs` / `ext_tuple_funcs` become parameters or calls of
+  already translated definitions; conditions whose value is known from the types (`x is None`
+  for an `int`, comparisons of string constants such as `mode == 'live'`) are folded, and only
+  the live branch of such an `if` is translated – this is how a function with optional
+  parameters is specialised to one calling convention.
+
 Aliasing: Python lists hold references.  The translation treats `lst.append(rec)` as appending
 the *value* of `rec`; that is only faithful if `rec` is not written to afterwards through the
 same object.  The translator tracks this: a record that has been appended is "shared" until the
@@ -35,7 +48,17 @@ from __future__ import annotations
 import ast
 import copy
 
-INT, OPT, PROP = "Int", "Option Int", "Prop"
+INT, OPT, PROP, STR = "Int", "Option Int", "Prop", "<str>"
+
+
+class Ret:
+    """a block ended with `return`: the returned values"""
+
+    def __init__(self, values, is_tuple):
+        self.values, self.is_tuple = values, is_tuple
+
+
+RAISED = "raised"       # a block ended with `raise` on every path
 
 
 class CannotTranslate(Exception):
@@ -92,12 +115,18 @@ class Ctx:
         self.lets: list[str] = []
         self.reads: set[str] = set()
         self.writes: list[str] = []
+        self.path: list[str] = []                    # conditions under which this region executes
+        self.fails: list[str] = []                   # path conditions of the `raise` statements met
 
     def fork(self) -> "Ctx":
         c = Ctx()
         c.env, c.records, c.lists, c.shared = dict(self.env), dict(self.records), dict(self.lists), set(self.shared)
-        c.lets, c.reads, c.writes = self.lets, self.reads, self.writes      # shared accumulators
+        c.lets, c.reads, c.writes, c.fails = self.lets, self.reads, self.writes, self.fails   # shared accumulators
+        c.path = list(self.path)
         return c
+
+    def adopt(self, o: "Ctx"):
+        self.env, self.records, self.lists, self.shared = o.env, o.records, o.lists, o.shared
 
 
 class Translator:
@@ -114,6 +143,13 @@ class Translator:
         self.loops: list[str] = []
         self.asserts: list[str] = []
         self.counter = 0
+        self.ext_calls: dict[str, tuple[str, str]] = {}     # call text -> (lean, type)
+        self.ext_funcs: dict[str, str] = {}                 # callee text -> lean function (Int → Int)
+        self.ext_tuple_funcs: dict[str, tuple[str, int]] = {}   # callee text -> (lean prefix, arity of result)
+        self.methods: dict[tuple[str, str], ast.FunctionDef] = {}   # (object name, method) -> definition
+        self.tuple_classes: set[str] = set()                # NamedTuple constructors = tuples
+        self.skip_assign: set[str] = set()                  # assignment texts that only create aliases
+        self.skipped: list[str] = []
 
     # ---- expressions ---------------------------------------------------------------------
     def lookup(self, c: Ctx, key: str):
@@ -123,11 +159,30 @@ class Translator:
         return c.env[key]
 
     def ex(self, c: Ctx, e) -> tuple[str, str]:
+        if isinstance(e, ast.Call):
+            text = ast.unparse(e)
+            if text in self.ext_calls:
+                return self.ext_calls[text]
+            ftext = ast.unparse(e.func)
+            if ftext in self.ext_funcs and len(e.args) == 1 and not e.keywords:
+                a, t = self.ex(c, e.args[0])
+                self.need(t, INT, e.args[0])
+                return f"({self.ext_funcs[ftext]} {a})", INT
+            if ftext in ("max", "min") and len(e.args) == 2 and not e.keywords:
+                a, ta = self.ex(c, e.args[0])
+                b, tb = self.ex(c, e.args[1])
+                self.need(ta, INT, e.args[0])
+                self.need(tb, INT, e.args[1])
+                return f"({ftext} {a} {b})", INT
         if isinstance(e, ast.Constant):
             if e.value is None:
                 return "none", OPT
-            if isinstance(e.value, int) and not isinstance(e.value, bool):
+            if isinstance(e.value, bool):
+                return ("True" if e.value else "False"), PROP
+            if isinstance(e.value, int):
                 return f"({e.value} : Int)", INT
+            if isinstance(e.value, str):
+                return repr(e.value), STR
             raise CannotTranslate(f"constant {e.value!r}")
         if isinstance(e, ast.Name):
             if e.id in c.records or e.id in c.lists:
@@ -138,9 +193,12 @@ class Translator:
                 return self.lookup(c, f"{e.value.id}.{e.attr}")
             key = (e.value.id, e.attr)
             if key in self.attrs:
-                if self.attrs[key] not in self.used_attrs:
-                    self.used_attrs.append(self.attrs[key])
-                return self.attrs[key], INT
+                v = self.attrs[key]
+                if isinstance(v, tuple):
+                    return v
+                if v not in self.used_attrs:
+                    self.used_attrs.append(v)
+                return v, INT
             raise CannotTranslate(f"unknown attribute {ast.unparse(e)}")
         if isinstance(e, ast.Attribute) and e.attr == "duration" and self.is_segment(e):
             i, t = self.ex(c, e.value.slice)
@@ -167,6 +225,11 @@ class Translator:
             op = e.ops[0]
             a, ta = self.ex(c, e.left)
             b, tb = self.ex(c, e.comparators[0])
+            if isinstance(op, (ast.Is, ast.IsNot)) and b == "none" and (ta == INT or a == "none"):
+                # known from the type: an int is never None / the value is the constant None
+                return ("True" if (a == "none") == isinstance(op, ast.Is) else "False"), PROP
+            if ta == STR and tb == STR and isinstance(op, (ast.Eq, ast.NotEq)):
+                return ("True" if (a == b) == isinstance(op, ast.Eq) else "False"), PROP
             if isinstance(op, (ast.Is, ast.IsNot)):
                 if b != "none" or ta != OPT:
                     raise CannotTranslate(f"`is` only against None on an optional: {ast.unparse(e)}")
@@ -185,14 +248,24 @@ class Translator:
             return f"({a} {self.CMP[type(op)]} {b})", PROP
         if isinstance(e, ast.BoolOp):
             parts = []
+            is_and = isinstance(e.op, ast.And)
             for v in e.values:
                 s, t = self.ex(c, v)
                 self.need(t, PROP, v)
-                parts.append(s)
-            return "(" + (" ∧ " if isinstance(e.op, ast.And) else " ∨ ").join(parts) + ")", PROP
+                if s == ("False" if is_and else "True"):
+                    return s, PROP
+                if s != ("True" if is_and else "False"):
+                    parts.append(s)
+            if not parts:
+                return ("True" if is_and else "False"), PROP
+            if len(parts) == 1:
+                return parts[0], PROP
+            return "(" + (" ∧ " if is_and else " ∨ ").join(parts) + ")", PROP
         if isinstance(e, ast.UnaryOp) and isinstance(e.op, ast.Not):
             s, t = self.ex(c, e.operand)
             self.need(t, PROP, e.operand)
+            if s in ("True", "False"):
+                return ("False" if s == "True" else "True"), PROP
             return f"(¬ {s})", PROP
         raise CannotTranslate(f"expression {ast.unparse(e)}")
 
@@ -235,8 +308,13 @@ class Translator:
             raise CannotTranslate(f"{cls.name} has no field {field}")
         self.bind(c, f"{rec}.{field}", self.coerce(lean, ty, want, node), want)
 
-    def block(self, c: Ctx, body) -> tuple[str, str] | None:
-        """translate statements; returns the translated `return` expression if the block ends with one"""
+    def block(self, c: Ctx, body):
+        """translate statements; returns None, a `Ret` (the block ends with `return`) or RAISED"""
+        if body and isinstance(body[-1], ast.Raise):
+            # nothing computed in a block that ends with `raise` can reach the caller
+            self.skipped.extend(ast.unparse(x)[:80] for x in body[:-1])
+            c.fails.append("(" + " ∧ ".join(c.path) + ")" if c.path else "True")
+            return RAISED
         for idx, s in enumerate(body):
             if isinstance(s, ast.Expr) and isinstance(s.value, ast.Constant) and isinstance(s.value.value, str):
                 continue
@@ -267,10 +345,23 @@ class Translator:
                     continue
                 raise CannotTranslate(f"call {ast.unparse(s)[:60]}")
             if isinstance(s, ast.Assign) and len(s.targets) == 1:
-                self.assign(c, s.targets[0], s.value)
+                if ast.unparse(s) in self.skip_assign or isinstance(s.value, ast.JoinedStr):
+                    self.skipped.append(ast.unparse(s)[:80])
+                    continue
+                if self.assign(c, s.targets[0], s.value) is RAISED:
+                    return RAISED
                 continue
-            if isinstance(s, ast.AnnAssign) and s.value is not None:
-                self.assign(c, s.target, s.value)
+            if isinstance(s, ast.AnnAssign):
+                if s.value is not None and self.assign(c, s.target, s.value) is RAISED:
+                    return RAISED
+                continue
+            if isinstance(s, ast.Try) and not s.orelse and not s.finalbody and s.handlers \
+                    and all(h.body and isinstance(h.body[-1], ast.Raise) for h in s.handlers):
+                r = self.block(c, s.body)
+                if r is RAISED:
+                    return RAISED
+                if r is not None:
+                    raise CannotTranslate("return inside `try`")
                 continue
             if isinstance(s, ast.AugAssign) and isinstance(s.op, (ast.Add, ast.Sub)):
                 cur, tc = self.ex(c, self.as_load(s.target))
@@ -281,7 +372,13 @@ class Translator:
                 self.store(c, s.target, f"({cur} {op} {v})", INT)
                 continue
             if isinstance(s, ast.If):
-                self.if_stmt(c, s)
+                r = self.if_stmt(c, s)
+                if r is RAISED:
+                    return RAISED
+                if r is not None:
+                    if idx != len(body) - 1:
+                        raise CannotTranslate("return in the middle of a block")
+                    return r
                 continue
             if isinstance(s, ast.While) and not s.orelse:
                 self.while_loop(c, s)
@@ -290,8 +387,11 @@ class Translator:
                 if idx != len(body) - 1:
                     raise CannotTranslate("return in the middle of a block")
                 if isinstance(s.value, ast.Name) and s.value.id in c.lists:
-                    return self.lookup(c, s.value.id)
-                return self.ex(c, s.value)
+                    return Ret([self.lookup(c, s.value.id)], False)
+                vals = self.values(c, s.value)
+                if vals is RAISED:
+                    return RAISED
+                return Ret(vals, isinstance(s.value, ast.Tuple) or len(vals) != 1)
             raise CannotTranslate(f"statement {ast.unparse(s)[:60]}")
         return None
 
@@ -311,7 +411,58 @@ class Translator:
         else:
             raise CannotTranslate(f"assignment target {ast.unparse(target)}")
 
+    def values(self, c: Ctx, e):
+        """the values of a (possibly tuple-valued) expression: a list of (lean, type), or RAISED"""
+        if isinstance(e, ast.Tuple):
+            return [self.ex(c, x) for x in e.elts]
+        if isinstance(e, ast.Call):
+            ftext = ast.unparse(e.func)
+            if isinstance(e.func, ast.Name) and e.func.id in self.tuple_classes and not e.keywords:
+                return [self.ex(c, x) for x in e.args]
+            if ftext in self.ext_tuple_funcs and not e.keywords:
+                pre, n = self.ext_tuple_funcs[ftext]
+                args = []
+                for a in e.args:
+                    v, t = self.ex(c, a)
+                    self.need(t, INT, a)
+                    args.append(v)
+                self.counter += 1
+                name = f"t_{self.counter}"
+                c.lets.append(f"let {name} : {' × '.join(['Int'] * n)} := {pre} {' '.join(args)}")
+                return [(name + ".2" * i + (".1" if i < n - 1 else ""), INT) for i in range(n)]
+            if (isinstance(e.func, ast.Attribute) and isinstance(e.func.value, ast.Name)
+                    and (e.func.value.id, e.func.attr) in self.methods and not e.keywords):
+                return self.inline_method(c, self.methods[(e.func.value.id, e.func.attr)], e.args)
+        return [self.ex(c, e)]
+
+    def inline_method(self, c: Ctx, fn: ast.FunctionDef, args):
+        params = [a.arg for a in fn.args.args][1:]
+        if len(params) != len(args):
+            raise CannotTranslate(f"call of {fn.name}: arity")
+        nc = Ctx()
+        nc.lets, nc.reads, nc.writes, nc.fails = c.lets, c.reads, c.writes, c.fails
+        nc.path = list(c.path)
+        for p, a in zip(params, args):
+            nc.env[p] = self.ex(c, a)
+        r = self.block(nc, fn.body)
+        if r is RAISED:
+            return RAISED
+        if r is None:
+            raise CannotTranslate(f"{fn.name} does not end with `return`")
+        return r.values
+
     def assign(self, c: Ctx, target, value):
+        if isinstance(target, ast.Tuple):
+            vals = self.values(c, value)
+            if vals is RAISED:
+                return RAISED
+            if len(vals) != len(target.elts):
+                raise CannotTranslate(f"unpacking {ast.unparse(target)}")
+            for t, (v, ty) in zip(target.elts, vals):
+                if isinstance(t, ast.Name) and t.id == "_":
+                    continue
+                self.store(c, t, v, ty)
+            return None
         if isinstance(target, ast.Name):
             name = target.id
             # rec = Class(k=v, ...)
@@ -352,10 +503,16 @@ class Translator:
                 c.records[name] = "__segment__"
                 self.bind(c, f"{name}.duration", f"(segDur {i})", INT)
                 return
-        v, t = self.ex(c, value)
-        if t == PROP:
-            raise CannotTranslate(f"boolean value stored: {ast.unparse(value)}")
+        vals = self.values(c, value)
+        if vals is RAISED:
+            return RAISED
+        if len(vals) != 1:
+            raise CannotTranslate(f"tuple stored in {ast.unparse(target)}")
+        v, t = vals[0]
+        if t in (PROP, STR):
+            raise CannotTranslate(f"non-integer value stored: {ast.unparse(value)}")
         self.store(c, target, v, t)
+        return None
 
     def inline(self, c: Ctx, fn: ast.FunctionDef, call: ast.Call):
         params = [a.arg for a in fn.args.args]
@@ -373,7 +530,7 @@ class Translator:
             guard = ast.If(test=ast.UnaryOp(op=ast.Not(), operand=body[0].test), body=body[1:], orelse=[])
             body = [guard] if body[1:] else []
         if self.block(c, body) is not None:
-            raise CannotTranslate(f"closure {fn.name} returns a value")
+            raise CannotTranslate(f"closure {fn.name} returns a value or raises")
 
     def merge(self, c: Ctx, cond: str, a: Ctx, b: Ctx):
         if set(a.records) != set(b.records) or any(a.records[k] != b.records[k] for k in a.records) or a.lists != b.lists:
@@ -395,10 +552,26 @@ class Translator:
     def if_stmt(self, c: Ctx, s: ast.If):
         cond, t = self.ex(c, s.test)
         self.need(t, PROP, s.test)
+        if cond in ("True", "False"):
+            # decided by the types / constants: only the live branch is translated
+            dead = s.orelse if cond == "True" else s.body
+            self.skipped.extend("dead: " + ast.unparse(x)[:70] for x in dead)
+            return self.block(c, s.body if cond == "True" else s.orelse)
         a, b = c.fork(), c.fork()
-        if self.block(a, s.body) is not None or self.block(b, s.orelse) is not None:
+        a.path.append(cond)
+        b.path.append(f"(¬ {cond})")
+        ra, rb = self.block(a, s.body), self.block(b, s.orelse)
+        if isinstance(ra, Ret) or isinstance(rb, Ret):
             raise CannotTranslate("return inside `if`")
-        self.merge(c, cond, a, b)
+        if ra is RAISED and rb is RAISED:
+            return RAISED
+        if ra is RAISED:
+            c.adopt(b)
+        elif rb is RAISED:
+            c.adopt(a)
+        else:
+            self.merge(c, cond, a, b)
+        return None
 
     def while_loop(self, c: Ctx, w: ast.While):
         def attempt(shared_at_entry: set):
@@ -410,7 +583,7 @@ class Translator:
             cond, t = self.ex(inner, w.test)
             self.need(t, PROP, w.test)
             if self.block(inner, w.body) is not None:
-                raise CannotTranslate("return inside `while`")
+                raise CannotTranslate("return or raise inside `while`")
             return inner, cond, save_counter
         inner, cond, _ = attempt(c.shared)
         if inner.shared - c.shared:
